@@ -34,7 +34,9 @@ def reqOf (a : Json) : R Req := do
     shmName := ← mdOf (← rawStr (← field a "shmName")), shmSize := size, isPointer := ← boolF a "isPointer",
     staticShm := ← boolF a "staticShm", shmOpen := ← st "shmOpen", allocInit := ← st "allocInit", resolve := ← st "resolve", deser := ← st "deser", release := ← st "release",
     ncols := ← natF a "ncols", rows := ← natF a "rows", asPy := ← st "asPy",
-    isTransportOptions := ← boolF a "isTransportOptions", methodKnown := ← boolF a "methodKnown",
+    isTransportOptions := ← boolF a "isTransportOptions",
+    streamNoHeader := (match fieldOpt a "streamNoHeader" with | some (.bool b) => b | _ => false),
+    peerWaits := (match fieldOpt a "peerWaits" with | some (.bool b) => b | _ => false), methodKnown := ← boolF a "methodKnown",
     versionCheck := ← st "versionCheck", validate := ← st "validate", call := ← st "call" }
 
 def outcomeName : Outcome → String
